@@ -157,6 +157,30 @@ theorem applyStarts_last (q : Nat) (as : List PAct) (a : PAct) (t : Track) (ha :
   rw [hs]
   simp [Track.start, i2, i3]
 
+/-! ### Calls made from inside action callbacks
+
+A callback runs in the event phase of a tick: it sees the timeline as it is at that moment — the time of
+the tick in progress (`now` advances only at the end of `Timeline.tick`), the tracks as left by the tracks
+served before it — and its calls are the very same `applyOp`s.  So every theorem above that is stated for
+an arbitrary timeline state `tl` (`update_semantics`, `schedTime_spec`, `schedTime_on_grid`) holds verbatim
+for calls made from a callback; the two lemmas below make the instantiation explicit. -/
+
+/-- What an (unmuted, active) action event does to the timeline is exactly its script run on the timeline
+    as it stands, and it makes no device call of its own. -/
+theorem callback_runs_ops (tl : TL) (t : Track) (d : Nat) (ops : List Op) (out : Outcome) (hm : t.muted = false) :
+    (performEvent tl t d true (.action ops out)).tl = (applyOps tl ops).tl ∧
+    (performEvent tl t d true (.action ops out)).calls = (applyOps tl ops).calls := by
+  simp [performEvent, hm]
+
+/-- An `update` issued from a callback during the tick in progress (time `tl.now`) on a track `t` of the
+    timeline: quantized to the first grid point at or after the time of THIS tick, plus delay and latency
+    (first component of `update_semantics`, at the callback's timeline). -/
+theorem callback_update_time (tl : TL) (tid sid : Nat) (qz dl count : Option Nat) (t : Track)
+    (hf : tl.find tid = some t) (hq : ¬ (qz.getD tl.defQz = 0 ∧ dl.getD tl.defDl + tl.latency = 0)) :
+    (applyOp tl (.update tid sid qz dl count)).tl.actions =
+      tl.actions ++ [{ time := schedTime tl.q tl.now (qz.getD tl.defQz) (dl.getD tl.defDl + tl.latency), tid := t.id, sid := sid }] := by
+  simp only [applyOp, hf, TL.updateTrack, updateCore, hq, if_false, TL.setTrack, Option.toList]
+
 /-! Non-vacuity -/
 example : schedTime 20 24 480 0 = 480 := by decide            -- tick 24 of 24/beat = beat 1, on the 1-beat grid
 example : schedTime 20 25 480 120 = 960 + 120 := by decide    -- just after beat 1 → beat 2, plus delay
